@@ -68,8 +68,13 @@ def compare_p2p(ctx, rows, name, pre=None):
         load[j] += weight(rows[i]) + 200
     bins = [sorted(b) for b in bins if b]
     # check_p2hist_k: the recorded keccak pairs that are shipped are first validated against the Gallina Keccak-256 (lib/Keccak.v), -2 if not
-    texts = [HDR + "Definition cases : list p2hist := %s.\nDefinition M := Eval vm_compute in map check_p2hist_k cases.\nPrint M.\n"
-             % core.glist(ghist(rows[i], pre) for i in b) for b in bins]
+    # (measured: +20 % evaluation time; quick tier validates the tables of every 4th history, thorough tier all of them)
+    every = 1 if ctx.tier == "thorough" else 4
+    bins = [[i for i in b if i % every == 0] + [i for i in b if i % every != 0] for b in bins]
+    texts = [HDR + "Definition casesK : list p2hist := %s.\nDefinition cases0 : list p2hist := %s.\n"
+             "Definition M := Eval vm_compute in map check_p2hist_k casesK ++ map check_p2hist cases0.\nPrint M.\n"
+             % (core.glist(ghist(rows[i], pre) for i in b if i % every == 0), core.glist(ghist(rows[i], pre) for i in b if i % every != 0)) for b in bins]
+    ctx.cov["p2p_keccak_tables_validated_in_coq"] = sum(1 for b in bins for i in b if i % every == 0)
     res = core.coq_eval_many(ctx, name, texts, timeout=1500)
     bad, cut = [], 0
     nkbad = 0
